@@ -44,7 +44,7 @@ def takagi(N, tol=1e-13, rounding=13):
     (n, m) = N.shape
     if n != m:
         raise ValueError("The input matrix must be square")
-    if np.linalg.norm(N - np.transpose(N)) >= tol:
+    if not np.linalg.norm(N - np.transpose(N)) < tol:
         raise ValueError("The input matrix is not symmetric")
 
     N = np.real_if_close(N)
@@ -1027,7 +1027,7 @@ def bloch_messiah(S, tol=1e-10, rounding=9):
 
     n = n // 2
     omega = sympmat(n)
-    if np.linalg.norm(np.transpose(S) @ omega @ S - omega) >= tol:
+    if not np.linalg.norm(np.transpose(S) @ omega @ S - omega) < tol:
         raise ValueError("The input matrix is not symplectic")
 
     if np.linalg.norm(np.transpose(S) @ S - np.eye(2 * n)) >= tol:
